@@ -164,63 +164,57 @@ def run(repo: Repo) -> Result:
     check_node(CALL, ("render_to_output", "render_to_output_async"), ("render", "render_async"), {"include", "block"})
 
     # ---- C15-CTOR ------------------------------------------------------------
-    ctor_calls = []
-    for st in walk_no_nested(copy_fn.node):
-        if isinstance(st, ast.If) and is_name(st.test, "block_scope"):
-            for part, isolated in ((st.body, False), (st.orelse, True)):
-                for s in part:
-                    for c in calls(s):
-                        if text(c.func) in ("self.__class__", "RenderContext", "type(self)"):
-                            ctor_calls.append((c, isolated, part))
-    if len(ctor_calls) != 2:
-        raise AnchorMissing("RenderContext.copy: expected one constructor call per block_scope branch")
-    for c, isolated, part in ctor_calls:
-        if not isolated:
-            # the block-scope branch: the new context may *read* the parent's scope, but only
-            # through its own `scope` chain.  If the parent's scope/locals became part of the
-            # block context's globals, a `render` issued from inside the block would inherit
-            # them (its isolated context is built from the caller's globals).
-            res.ob(f"{copy_fn.qual}:block-ctor", 2)
-            kw = {k.arg: k.value for k in c.keywords}
-            g = kw.get("globals")
-            for a in list(c.args) + [k.value for k in c.keywords]:
-                for b_ in _mentions_caller_state(a, "self"):
-                    res.add("C15-CTOR", copy_fn.qual, f"block-ctor<-{b_}", f"`{b_}` flows into the block context's constructor ({'globals' if a is g else 'argument'}): templates rendered from inside the block build their isolated globals from it and would see the parent template's local variables", copy_fn.file, c.lineno)
-            for s_ in part:
-                if isinstance(s_, ast.Assign) and not any(x is c for x in ast.walk(s_)):
-                    tgt = text(s_.targets[0])
-                    leaks = _mentions_caller_state(s_.value, "self")
-                    if tgt == "ctx.scope":
-                        continue  # the one sanctioned place for the parent's scope
-                    if tgt == "ctx.tag_namespace['extends']" and text(s_.value) == "self.tag_namespace['extends']":
-                        continue  # block bookkeeping of the inheritance chain, not variables
-                    if leaks:
-                        res.add("C15-CTOR", copy_fn.qual, f"block-post:{tgt}<-{leaks[0]}", f"the block branch of copy stores `{leaks[0]}` in `{tgt}`", copy_fn.file, s_.lineno)
-            continue
-        res.ob(f"{copy_fn.qual}:isolated-ctor", 2)
+    # Judged on path conditions (sa/guards.py), not on how the branches are laid out: the two
+    # contexts may be built by one shared constructor call or by one call per branch.
+    from ..guards import canon, conditions
+
+    cond_of = {id(st): [canon(c) for c in cs] for st, cs in conditions(copy_fn.node)}
+    stmt_of_call = {}
+    for st, _cs in conditions(copy_fn.node):
+        for c in calls(st):
+            stmt_of_call[id(c)] = st  # pre-order: the last statement recorded is the innermost
+    ctor_calls = [c for c in calls(copy_fn.node) if text(c.func) in ("self.__class__", "RenderContext", "type(self)")]
+    if not ctor_calls:
+        raise AnchorMissing("RenderContext.copy constructs no context")
+    ctx_names = set()
+    for c in ctor_calls:
+        st = stmt_of_call.get(id(c))
+        if isinstance(st, ast.Assign) and isinstance(st.targets[0], ast.Name):
+            ctx_names.add(st.targets[0].id)
+        res.ob(f"{copy_fn.qual}:ctor", 2)
         kw = {k.arg: k.value for k in c.keywords}
         g = kw.get("globals")
-        ok = (
-            isinstance(g, ast.Call)
-            and callee_name(g) == "ReadOnlyChainMap"
-            and len(g.args) == 2
-            and is_name(g.args[0], "namespace")
-            and attr_chain(g.args[1]) == ["self", "globals"]
-        )
+        ok = isinstance(g, ast.Call) and callee_name(g) == "ReadOnlyChainMap" and len(g.args) == 2 and is_name(g.args[0], "namespace") and attr_chain(g.args[1]) == ["self", "globals"]
         if not ok:
-            res.add("C15-CTOR", copy_fn.qual, f"globals={text(g) if g is not None else None}", "the isolated copy's globals must be ReadOnlyChainMap(namespace, self.globals)", copy_fn.file, c.lineno)
-        for a in list(c.args) + [k.value for k in c.keywords]:
-            for b_ in _mentions_caller_state(a, "self"):
-                res.add("C15-CTOR", copy_fn.qual, f"ctor<-{b_}", f"caller state `{b_}` flows into the isolated context's constructor", copy_fn.file, c.lineno)
-        for s in part:
-            if isinstance(s, ast.Assign) and not any(x is c for x in ast.walk(s)):
-                res.add("C15-CTOR", copy_fn.qual, f"post-assign:{text(s)[:50]}", f"the isolated branch of copy modifies the new context: `{text(s)[:70]}`", copy_fn.file, s.lineno)
-    # statements after the if that touch ctx
-    for st in copy_fn.node.body:
-        if isinstance(st, ast.Assign) and any(isinstance(t, (ast.Attribute, ast.Subscript)) and "ctx" in names_in(t) for t in st.targets):
-            res.ob(f"{copy_fn.qual}:post")
-            for b_ in _mentions_caller_state(st.value, "self"):
-                res.add("C15-CTOR", copy_fn.qual, f"post<-{b_}", f"copy stores caller state `{b_}` on every new context", copy_fn.file, st.lineno)
+            res.add("C15-CTOR", copy_fn.qual, f"globals={text(g) if g is not None else None}", "every copied context's globals must be ReadOnlyChainMap(namespace, self.globals)", copy_fn.file, c.lineno)
+        for a_ in list(c.args) + [k.value for k in c.keywords]:
+            for b_ in _mentions_caller_state(a_, "self"):
+                where = "block-ctor" if "block_scope" in cond_of.get(id(st), []) else "ctor"
+                res.add("C15-CTOR", copy_fn.qual, f"{where}<-{b_}", f"caller state `{b_}` flows into the new context's constructor ({'globals' if a_ is g else 'argument'}): the partial — or a template rendered from inside an inheritance block — would see the caller's local variables", copy_fn.file, c.lineno)
+    # stores onto the new context after construction: only on the block-scope path, and only the
+    # two sanctioned ones
+    for st, _cs in conditions(copy_fn.node):
+        if not isinstance(st, ast.Assign):
+            continue
+        for t in st.targets:
+            base = t
+            while isinstance(base, (ast.Attribute, ast.Subscript)):
+                base = base.value
+            if not (isinstance(t, (ast.Attribute, ast.Subscript)) and isinstance(base, ast.Name) and base.id in ctx_names):
+                continue
+            res.ob(f"{copy_fn.qual}:post-store")
+            tgt = text(t)
+            on_block_path = "block_scope" in cond_of.get(id(st), [])
+            if not on_block_path:
+                res.add("C15-CTOR", copy_fn.qual, f"post-assign:{text(st)[:50]}", f"copy modifies the new context outside the block-scope path: `{text(st)[:70]}` also reaches the isolated context of render / call", copy_fn.file, st.lineno)
+                continue
+            if tgt.endswith(".scope"):
+                continue  # the one sanctioned place for the parent's scope
+            if tgt.endswith(".tag_namespace['extends']") and text(st.value) == "self.tag_namespace['extends']":
+                continue  # block bookkeeping of the inheritance chain, not variables
+            leaks = _mentions_caller_state(st.value, "self")
+            if leaks:
+                res.add("C15-CTOR", copy_fn.qual, f"block-post:{tgt}<-{leaks[0]}", f"the block-scope path of copy stores `{leaks[0]}` in `{tgt}`", copy_fn.file, st.lineno)
 
     # ---- C15-FRESH -----------------------------------------------------------
     init = repo.own_method(CTX, "__init__")
@@ -289,26 +283,28 @@ def run(repo: Repo) -> Result:
     # `render` disables `include` on the partial's context.  A `{% block %}` of that partial (when it
     # extends a base) runs on a block-scope *copy*: unless the copy takes over the parent's
     # disabled tags when the caller passes none, `include` works again inside the block.
-    for c, isolated, part in ctor_calls:
-        if isolated:
-            continue
-        res.ob(f"{copy_fn.qual}:block-disabled")
+    res.ob(f"{copy_fn.qual}:block-disabled")
+    inherits = False
+    for st, _cs in conditions(copy_fn.node):
+        cs = cond_of.get(id(st), [])
+        if isinstance(st, ast.Assign) and any(is_name(t, "disabled_tags") for t in st.targets) and "self.disabled_tags" in text(st.value):
+            if "block_scope" in cs and ("disabled_tags is None" in cs or "disabled_tags" not in " ".join(cs).replace("disabled_tags is None", "")):
+                inherits = True
+    for c in ctor_calls:
         kw = {k.arg: k.value for k in c.keywords}
-        srcs = [text(kw["disabled_tags"])] if "disabled_tags" in kw else []
-        for s_ in part:
-            for a_ in [s_] + list(walk_no_nested(s_)):
-                if isinstance(a_, ast.Assign) and any(is_name(t, "disabled_tags") for t in a_.targets):
-                    srcs.append(text(a_.value))
-        if not any("self.disabled_tags" in t for t in srcs):
-            res.add(
-                "C15-DISABLED",
-                copy_fn.qual,
-                "block-scope-drops-disabled",
-                "RenderContext.copy(block_scope=True) builds the block's context with "
-                f"disabled_tags={srcs or 'nothing'}: the parent context's disabled tags are not inherited, so a partial rendered with `render` can use `include` from inside an inheritance block",
-                copy_fn.file,
-                c.lineno,
-            )
+        if "disabled_tags" in kw and "self.disabled_tags" in text(kw["disabled_tags"]):
+            inherits = True
+        if "disabled_tags" not in kw:
+            inherits = False
+    if not inherits:
+        res.add(
+            "C15-DISABLED",
+            copy_fn.qual,
+            "block-scope-drops-disabled",
+            "RenderContext.copy(block_scope=True) builds the block's context without inheriting the parent context's disabled tags when the caller passes none: a partial rendered with `render` can use `include` from inside an inheritance block",
+            copy_fn.file,
+            copy_fn.line,
+        )
 
     # ---- C15-DISABLED (Node.render) ---------------------------------------------
     for m, target in (("render", "render_to_output"), ("render_async", "render_to_output_async")):
@@ -367,7 +363,8 @@ def selftest(repo: Repo):
         v("namespace-leaks-locals", R, "        args = {arg.name: arg.value.evaluate(context) for arg in self.args}\n", "        args = {**context.locals, **{arg.name: arg.value.evaluate(context) for arg in self.args}}\n", "C15-NS"),
         v("macro-extends-instead-of-copy", M, "        macro_context = context.copy(\n            namespace=namespace,\n            disabled_tags=self.disabled_tags,\n            carry_loop_iterations=True,\n        )\n\n        return macro.block.render(macro_context, buffer)", "        with context.extend(namespace) as macro_context:\n            return macro.block.render(macro_context, buffer)", "C15-COPY"),
         v("node-render-skips-check", "liquid/ast.py", "        if context.disabled_tags:\n            self.raise_for_disabled(context.disabled_tags)\n        return self.render_to_output(context, buffer)", "        return self.render_to_output(context, buffer)", "C15-DISABLED"),
-        v("block-copy-scope-in-globals", C, "        if block_scope:\n            ctx = self.__class__(\n                template or self.template,\n                globals=ReadOnlyChainMap(namespace, self.globals),", "        if block_scope:\n            ctx = self.__class__(\n                template or self.template,\n                globals=ReadOnlyChainMap(namespace, self.scope),", "C15-CTOR"),
+        v("block-copy-scope-in-globals", C, "                disabled_tags = self.disabled_tags\n            ctx = self.__class__(\n                template or self.template,\n                globals=ReadOnlyChainMap(namespace, self.globals),", "                disabled_tags = self.disabled_tags\n            ctx = self.__class__(\n                template or self.template,\n                globals=ReadOnlyChainMap(namespace, self.scope),", "C15-CTOR"),
+        v("block-copy-forgets-disabled-tags", C, "            if disabled_tags is None:\n                # A block is part of this template. What this context must not do,\n                # like `include` from a rendered partial, the block must not do either.\n                disabled_tags = self.disabled_tags\n", "", "C15-DISABLED"),
         v("init-globals-truthiness", C, "globals if globals is not None else {}", "globals or {}", "C15-INIT"),
         v("parentloop-falls-back-to-parent", C, '            return self.env.undefined("parentloop", token=None)', '            if self.parent_context is not None:\n                return self.parent_context.parentloop()\n            return self.env.undefined("parentloop", token=None)', "C15-PARENT"),
         v("get-falls-back-to-parent-locals", C, "    def parentloop(self) -> Union[Undefined, object]:", "    def _caller_local(self, key: str) -> object:\n        return self.parent_context.locals.get(key) if self.parent_context else None\n\n    def parentloop(self) -> Union[Undefined, object]:", "C15-PARENT"),
